@@ -292,7 +292,16 @@ class BpWorld(object):
             if orig is not None and rec['isfrag']:
                 pay = bp7.payload_of(bun) or b''
                 fragok = (pay == orig[p['frag_off']:p['frag_off'] + len(pay)])
-        self.emit('ClOut', b=rec, mtu=clampi(mtu) if mtu is not None else -1, agedelta=agedelta, fragok=fragok,
+        fx = -1
+        if bun is not None and rec['isfrag'] and bun['primary']['frag_off'] is not None:
+            # fixed part of the envelope: the same fragment re-written independently with offset, total
+            # and payload length all zero (three one-octet heads)
+            prim = dict(bun['primary'])
+            prim['frag_off'] = 0
+            prim['total'] = 0
+            blocks = [dict(b, data=(b'' if b['type'] == 1 else b['data'])) for b in bun['blocks']]
+            fx = len(bp7.write_bundle(prim, blocks)) - 3
+        self.emit('ClOut', b=rec, mtu=clampi(mtu) if mtu is not None else -1, agedelta=agedelta, fragok=fragok, fx=fx,
                   next=str(tx_params.get('next', '')) if isinstance(tx_params, dict) else '')
 
     def recv(self, octets, note='', sec='none', plain='', nsec=0, expect_decode_error=False):
